@@ -80,7 +80,9 @@ fn main() {
         replay_case = v["case_id"].as_str().map(|s| s.to_string());
     }
     mon::install_panic_hook();
+    let known = std::sync::Arc::new(mon::KnownSet::load(&root, &prop));
     let ctx = Ctx {
+        known,
         prop: prop.clone(),
         tier,
         seed,
@@ -97,6 +99,7 @@ fn main() {
         "C05" => checks::c05::run(&ctx),
         "C06" => checks::c06::run(&ctx),
         "C07" => checks::c07::run(&ctx),
+        "C08" => checks::c08::run(&ctx),
         _ => {
             eprintln!("unknown property {prop}");
             2
